@@ -333,7 +333,8 @@ impl Check for C11 {
             }
             for c in &cps {
                 // reflections (negative determinant): mirror in x, mirror in y, axis swap
-                for xf in [[-1.0f32, 0., 0., 1., 36., 0.], [1., 0., 0., -1., 0., 36.], [0., 1., 1., 0., 0., 0.]] {
+                // ... and rotations: a quarter turn (the scale sits entirely off the diagonal), 60 degrees, 80 degrees
+                for xf in [[-1.0f32, 0., 0., 1., 36., 0.], [1., 0., 0., -1., 0., 36.], [0., 1., 1., 0., 0., 0.], [0., 1., -1., 0., 36., 0.], [0.5, 0.8660254, -0.8660254, 0.5, 24.6, -6.6], [0.17364818, 0.9848077, -0.9848077, 0.17364818, 32.6, -2.9]] {
                     let path = PathSpec::new(vec![POp::M(a.0, a.1), POp::Q(b.0, b.1, c.0, c.1)]);
                     let st = StyleSpec { width: 4.0, cap: (s % 2) as u8, join: 1, miter: 4., dash: vec![], offset: 0. };
                     l.states += 1;
